@@ -616,8 +616,11 @@ impl FdlActiveStation {
         let pending_bytes = phy.poll_pending_received_bytes(now);
         if pending_bytes > self.pending_bytes {
             self.mark_bus_activity(now);
-            self.pending_bytes = pending_bytes;
         }
+        // Also track when the receive buffer shrinks (undecodable data was discarded).  Otherwise
+        // the arrival of the next telegram would go unnoticed until it is longer than the
+        // discarded data.
+        self.pending_bytes = pending_bytes;
     }
 
     /// Mark receival of a telegram.
